@@ -240,29 +240,34 @@ def f_rt(script, name, bounded=False, args_quick=(), args_thorough=()):
 
 f_compile = f_rt("compile", "compile", bounded=True, args_quick=("--bound", "2", "--time-limit", "40"),
                 args_thorough=("--bound", "2", "--time-limit", "1200"))
+def f_docs(sections):
+    return f_rt("documents", "documents", bounded=True, args_quick=("--count", "80", "--sections", sections),
+                args_thorough=("--count", "600", "--sections", sections))
+
+
 f_matcher = f_rt("matcher", "matcher", args_quick=("--bound", "2"), args_thorough=("--bound", "3"))
 f_traces = f_rt("parser_traces", "parser-traces", bounded=True, args_quick=("--bound", "3"),
                 args_thorough=("--bound", "4", "--time-limit", "1500"))
 
 
 PROPS = {
-    "C01": dict(finite=[f_table_extraction, f_modes, f_lookahead_targets, f_traces]),
+    "C01": dict(finite=[f_table_extraction, f_modes, f_lookahead_targets, f_traces, f_docs("total,errors")]),
     "C02": dict(finite=[f_table_extraction, f_siblings, f_bisim, f_traces]),
-    "C03": dict(finite=[f_build_once, f_corpus(["ast"], "ast")]),
-    "C04": dict(finite=[]),
+    "C03": dict(finite=[f_build_once, f_corpus(["ast"], "ast"), f_docs("documents")]),
+    "C04": dict(finite=[f_docs("documents,layout")]),
     "C05": dict(finite=[f_json_identity, f_matcher]),
     "C06": dict(finite=[f_compile]),
     "C07": dict(finite=[f_compile]),
     "C08": dict(finite=[f_compile]),
     "C09": dict(finite=[f_compile]),
     "C10": dict(finite=[f_compile, f_matcher]),
-    "C11": dict(finite=[f_compile]),
-    "C12": dict(finite=[]),
-    "C13": dict(finite=[f_docstring_states]),
-    "C14": dict(finite=[f_modes, f_siblings, f_corpus(["errors"], "errors"), f_traces]),
-    "C15": dict(finite=[f_compile, f_matcher]),
-    "C16": dict(finite=[]),
-    "C17": dict(finite=[f_corpus(["source", "ast", "pickles", "errors"], "events")]),
+    "C11": dict(finite=[f_compile, f_docs("documents,stream")]),
+    "C12": dict(finite=[f_docs("documents,errors")]),
+    "C13": dict(finite=[f_docstring_states, f_docs("documents")]),
+    "C14": dict(finite=[f_modes, f_siblings, f_corpus(["errors"], "errors"), f_traces, f_docs("errors")]),
+    "C15": dict(finite=[f_compile, f_matcher, f_docs("history")]),
+    "C16": dict(finite=[f_docs("layout,insertion,errors")]),
+    "C17": dict(finite=[f_corpus(["source", "ast", "pickles", "errors"], "events"), f_docs("stream,layout")]),
     "C18": dict(finite=[f_table_extraction, f_build_once, f_lookahead_targets, f_corpus(["tokens"], "tokens"), f_traces]),
     "C19": dict(finite=[]),
 }
